@@ -2,23 +2,23 @@
 
 # property -> contract modules that register cases for it
 INDEX = {
-    "C01": ["c01", "c04"],
-    "C02": ["c01"],
-    "C03": ["c03", "c20", "c16", "c11", "c09", "c17", "c08", "c13"],
+    "C01": ["c01", "c04", "cnum"],
+    "C02": ["c01", "cnum"],
+    "C03": ["c03", "c20", "c16", "c11", "c09", "c17", "c08", "c13", "cnum"],
     "C04": ["c04", "c06"],
     "C05": ["c05"],
-    "C06": ["c06"],
-    "C07": ["c06", "c04"],
-    "C08": ["c08"],
-    "C09": ["c09"],
-    "C10": ["c10", "c04"],
-    "C11": ["c11"],
-    "C13": ["c13"],
-    "C14": ["c13"],
-    "C15": ["c13"],
-    "C16": ["c16"],
-    "C17": ["c17"],
+    "C06": ["c06", "cnum"],
+    "C07": ["c06", "c04", "cnum"],
+    "C08": ["c08", "cnum"],
+    "C09": ["c09", "cnum"],
+    "C10": ["c10", "c04", "cnum"],
+    "C11": ["c11", "cnum"],
+    "C13": ["c13", "cnum"],
+    "C14": ["c13", "cnum"],
+    "C15": ["c13", "cnum"],
+    "C16": ["c16", "cnum"],
+    "C17": ["c17", "cnum"],
     "C18": ["c17"],
-    "C19": ["c19"],
-    "C20": ["c20"],
+    "C19": ["c19", "cnum"],
+    "C20": ["c20", "cnum"],
 }
